@@ -80,6 +80,12 @@ func (b *Broker) Consume(c *Conn, respond bool) bool {
 			sp = 1
 		}
 		b.session = true
+		// session take-over: older connections of this client are dropped (MQTT-3.1.4-2)
+		for _, old := range b.w.Conns() {
+			if old.id < c.id {
+				old.dropUnconsumed()
+			}
+		}
 		replies = append(replies, &codec.Packet{T: "CONNACK", SP: sp, RC: 0})
 		for _, m := range b.out {
 			switch m.State {
@@ -165,8 +171,18 @@ func (b *Broker) Publish(c *Conn, qos int, topic string, payload []byte, retain 
 	defer b.mu.Unlock()
 	id := 0
 	if qos > 0 {
-		b.nextID++
-		id = b.nextID
+		// the lowest identifier that is not in flight: identifiers are reused after completion
+		for id = 1; ; id++ {
+			busy := false
+			for _, m := range b.out {
+				if m.ID == id && m.State != "done" {
+					busy = true
+				}
+			}
+			if !busy {
+				break
+			}
+		}
 		b.out = append(b.out, &OutMsg{ID: id, QoS: qos, Topic: topic, Payload: payload, State: "sent"})
 	}
 	b.send(c, &codec.Packet{T: "PUBLISH", ID: id, QoS: qos, Topic: topic, Payload: payload, Retain: retain})
